@@ -2616,6 +2616,20 @@ theorem c06_unsolicited_description_not_parked (o : Ovl) (tm : TreeMarshal) (h :
   · simp [h0]
   · simp [h0, h]
 
+/-- **with loss there is no recovery by retransmission**: `requestTree` sends a request only when the id has no
+slot ("request already sent" otherwise, overlay.go:371-374).  After the request (or its answer) was lost, asking
+again puts nothing in flight: the network is quiet, the peer holds the tree, and the requester waits until
+it withdraws the request itself (`Unregister` on a failed send, C01/C11).  This is why the quiescence theorem
+excludes loss (`EvKeeps`); the code relies on the transport for delivery. -/
+example : ∃ (t : Tree) (n : Net), (n.ovl .A).get t.id = some t ∧ (n.ovl .B).isRequested t.id = true ∧ Quiet n ∧
+    Quiet (netStep n (.ask .B t.id 1)) ∧ ((netStep n (.ask .B t.id 1)).ovl .B).get t.id = none := by
+  let ro : Roster := { id := 9, list := [⟨3, 4, false⟩, ⟨5, 6, false⟩] }
+  let t := newTree 1 ro (.node 3 3 4 0 0 (.node 5 5 6 1 0 .nil .nil) .nil)
+  let n := netRun { ovl := fun _ => {}, inbox := fun _ => [] } [.loc .A (.register t), .ask .B 1 1, .drop .A 0]
+  refine ⟨t, n, by decide, by decide, ?_, ?_, by decide⟩
+  · intro s; cases s <;> decide
+  · intro s; cases s <;> decide
+
 /-! ### the code regions the model stands for
 Regenerated from /repo's source on every run (`harness/cmd/astfacts` → `OnetVerif/Shapes.lean`): the
 calls that matter for synchronisation and data flow, the lock regions and (for decision logic) the
